@@ -87,7 +87,10 @@ C01Cases ==
 PtKeys == << a, <<97, 97>>, ab, <<97, 99>>, <<97, 100>>, bb, <<98, 122>>, c1, <<99, 51>>, <<122>> >>
 PtList(S) == LET RECURSIVE Go(_) Go(i) == IF i > Len(PtKeys) THEN <<>> ELSE (IF i \in S THEN <<AStr(PtKeys[i])>> ELSE <<>>) \o Go(i + 1) IN Go(1)
 RevSeq(q) == [i \in 1..Len(q) |-> q[Len(q) + 1 - i]]
-PtCases == { [st |-> Select(<<>>, w, <<>>, <<>>, NoLim), sid |-> "T"] :
+PtMixed == { [st |-> Select(<<>>, w, <<>>, <<>>, NoLim), sid |-> "T"] :
+               w \in { AIn(AKey, <<AStr(a), AVal>>), AIn(AKey, <<AVal, AStr(c1)>>), AIn(AKey, <<AStr(a), Call1("lower", AVal), AStr(bb)>>),
+                       ABin("|", AIn(AKey, <<AStr(c2), AVal>>), ABin("=", AKey, AStr(a))), ABin("&", AIn(AKey, <<AStr(a), AVal>>), ABin("!=", AVal, AStr(<<120>>))) } }
+PtCases == PtMixed \cup { [st |-> Select(<<>>, w, <<>>, <<>>, NoLim), sid |-> "T"] :
                w \in UNION { { AIn(AKey, PtList(S)), ABin("&", AIn(AKey, PtList(S)), ABin("!=", AVal, AStr(<<120>>))),
                                AIn(AKey, RevSeq(PtList(S))) }                                   \* written in descending order: rows still ascend
                              : S \in (SUBSET (1..Len(PtKeys))) \ {{}} } }
@@ -152,12 +155,15 @@ J3 == VObj(<<VMem(a, VBool(TRUE)), VMem(<<108>>, VList(<<VStr(<<117>>), VStr(<<1
 J4 == VObj(<<>>)
 J5 == VObj(<<VMem(a, JN(12)), VMem(<<108>>, VList(<<>>)), VMem(<<111>>, VObj(<<VMem(<<112>>, VObj(<<VMem(<<122>>, JN(7))>>))>>))>>)
 J6 == VObj(<<VMem(a, VFlt(5, 1)), VMem(bb, VStr(<<>>)), VMem(<<108>>, VList(<<VList(<<JN(1)>>), VObj(<<VMem(a, JN(0))>>)>>))>>)
-StoreJ == << SPD(<<106, 49>>, J1), SPD(<<106, 50>>, J2), SPD(<<106, 51>>, J3), SPD(<<106, 52>>, J4), SPD(<<106, 53>>, J5), SPD(<<106, 54>>, J6) >>
+\* a document may be stored with white space around it
+SPDW(k, doc, pre, post) == [k |-> k, v |-> pre \o RenderJson(doc) \o post, doc |-> doc]
+StoreJ == << SPD(<<106, 49>>, J1), SPD(<<106, 50>>, J2), SPD(<<106, 51>>, J3), SPD(<<106, 52>>, J4), SPD(<<106, 53>>, J5), SPD(<<106, 54>>, J6),
+             SPDW(<<106, 55>>, J2, <<32>>, <<>>), SPDW(<<106, 56>>, J1, <<10, 32>>, <<32, 10>>), SPDW(<<106, 57>>, J5, <<9>>, <<>>) >>
 JV == Call1("json", AVal)
 JsonExprs == { JV, AIdx(JV, AStr(a)), AIdx(JV, AStr(bb)), AIdx(JV, AStr(<<108>>)), AIdx(AIdx(JV, AStr(<<108>>)), AInt(1)), AIdx(AIdx(JV, AStr(<<108>>)), AInt(0)),
                AIdx(AIdx(JV, AStr(<<111>>)), AStr(<<112>>)), AIdx(AIdx(AIdx(JV, AStr(<<111>>)), AStr(<<112>>)), AStr(<<122>>)), AIdx(JV, AStr(<<111>>)),
                AIdx(AIdx(AIdx(JV, AStr(<<108>>)), AInt(1)), AStr(a)) }
-JKeys == {<<106, 49>>, <<106, 50>>, <<106, 51>>, <<106, 52>>, <<106, 53>>, <<106, 54>>}
+JKeys == {<<106, 49>>, <<106, 50>>, <<106, 51>>, <<106, 52>>, <<106, 53>>, <<106, 54>>, <<106, 55>>, <<106, 56>>, <<106, 57>>}
 C10Json == { [st |-> Select(<<F(AKey, ""), F(e, "")>>, ABin("^=", AKey, AStr(<<106>>)), <<>>, <<>>, NoLim), sid |-> "J"] : e \in JsonExprs }
            \cup { [st |-> Select(<<F(AKey, ""), F(e, "")>>, ABin("=", AKey, AStr(k)), <<>>, <<>>, NoLim), sid |-> "J"] : e \in JsonExprs, k \in JKeys }
            \cup { [st |-> Select(<<>>, w, <<>>, <<>>, NoLim), sid |-> "J"] :
@@ -177,7 +183,13 @@ StoreB == << SP(<<57,48,48,55,49,57,57,50,53,52,55,52,48,57,57,51>>, <<55>>), SP
 BigExprs == { Call1("int", AVal), Call1("str", Call1("int", AVal)), Call1("int", AKey) , Call1("int", Call1("upper", AVal)), Call1("int", AStr(<<57,48,48,55,49,57,57,50,53,52,55,52,48,57,57,51>>)),
               Call1("is_int", AVal), ABin("=", Call1("str", Call1("int", AVal)), AVal), AIdx(ACall("int_list", <<AVal, AInt(1)>>), AInt(0)) }
 C10Big == { [st |-> Select(<<F(AKey, ""), F(e, "")>>, ABin("!=", AKey, AStr(<<122>>)), <<>>, <<>>, NoLim), sid |-> "B"] : e \in BigExprs }
-C10Cases == C10Fields \cup C10Preds \cup C10Json \cup C10RowArgs \cup C10Big
+\* constant first arguments evaluated on every chunk of a long scan (40 rows: two chunks of 32)
+LitArgExprs == { AIdx(Call2("split", AStr(<<120, 44, 121, 44, 122>>), AStr(Comma)), AInt(1)), Call1("len", Call2("split", AStr(<<120, 44, 121, 44, 122>>), AStr(Comma))),
+                 ABin("+", AStr(a), AKey), Call1("upper", ABin("+", AStr(a), AVal)), ACall("join", <<AStr(<<45>>), AStr(a), AKey>>), ACall("substr", <<AStr(abc), AInt(1), AInt(2)>>),
+                 Call2("split", ABin("+", AStr(<<120, 44>>), AKey), AStr(Comma)), AIdx(ACall("list", <<AInt(7), AInt(8)>>), AInt(1)) }
+C10Long == { [st |-> Select(<<F(AKey, ""), F(e, "")>>, All, <<>>, <<>>, NoLim), sid |-> "S40"] : e \in LitArgExprs }
+           \cup { [st |-> Select(<<>>, ABin("=", AIdx(Call2("split", AStr(<<120, 44, 121>>), AStr(Comma)), AInt(1)), AStr(<<121>>)), <<>>, <<>>, NoLim), sid |-> "S40"] }
+C10Cases == C10Fields \cup C10Preds \cup C10Json \cup C10RowArgs \cup C10Big \cup C10Long
 
 \* values for the function families: comma lists, numbers, mixed case
 StoreV == << SP(a, <<97, 44, 98, 44, 99>>), SP(ab, <<49, 44, 50, 44, 50>>), SP(abc, <<55>>), SP(bb, <<65, 98>>), SP(ba, <<49, 46, 53>>), SP(c1, <<>>), SP(c2, <<45, 51>>) >>
@@ -228,9 +240,12 @@ LimAggr(w) == Select(<<F(AVal, "g"), F(Call1("count", AInt(1)), "c")>>, w, <<>>,
 LimAggrOrd(w) == Select(<<F(AVal, "g"), F(Call1("count", AInt(1)), "c")>>, w, <<O(2, FALSE)>>, <<1>>, NoLim)
 WithLim(st, s, n) == [st EXCEPT !.lim = Lim(s, n)]
 SizeId(n) == "N" \o ToString(n)
+LimAggrAll(w) == Select(<<F(Call1("count", AInt(1)), "c"), F(Call1("sum", Call1("int", AVal)), "s")>>, w, <<>>, <<>>, NoLim)   \* one row: offset >= 1 or count 0 cut it away
+LimAlias(w) == Select(<<F(AKey, ""), F(Call1("int", AVal), "v")>>, ABin("&", w, ABin(">", AName("v"), AInt(0))), <<>>, <<>>, NoLim)  \* filter on a select field: its chunk values are cached
 C08Select ==
   { [st |-> WithLim(bs, s, n), sid |-> SizeId(sz)] :
-       bs \in {LimPlain(KAll), LimPlain(KSome), LimOrdered(KAll), LimAggr(KAll), LimAggrOrd(KAll)}, s \in GridSmall, n \in GridSmall, sz \in SizesSmall }
+       bs \in {LimPlain(KAll), LimPlain(KSome), LimOrdered(KAll), LimAggr(KAll), LimAggrOrd(KAll), LimAggrAll(KAll), LimAlias(KAll)}, s \in GridSmall, n \in GridSmall, sz \in SizesSmall }
+  \cup { [st |-> WithLim(LimAlias(KAll), s, n), sid |-> SizeId(sz)] : s \in {1, 3, 31, 32, 33}, n \in {1, 5, 32, 33}, sz \in {33, 65} }
   \cup { [st |-> WithLim(bs, s, n), sid |-> SizeId(sz)] :
        bs \in {LimPlain(KAll), LimPlain(KSome)}, s \in GridBig, n \in GridBig, sz \in (IF Scale >= 2 THEN SizesBig ELSE {32, 33, 65}) }
   \cup { [st |-> WithLim(bs, s, n), sid |-> SizeId(sz)] :
@@ -268,7 +283,8 @@ C07Mixed == { [st |-> Select(AggFieldsV, All, ov, <<1>>, NoLim), sid |-> "M"] :
 C07BoolKey == { [st |-> Select(<<F(Call1("is_int", AVal), "b"), F(Call1("count", AInt(1)), "c")>>, All, ov, <<1>>, NoLim), sid |-> "O"] : ov \in { <<O(1, FALSE)>>, <<O(1, TRUE)>>, <<O(1, FALSE), O(2, TRUE)>> } }
               \cup { [st |-> Select(<<F(AKey, ""), F(Call1("is_int", AVal), "b"), F(Call1("count", AInt(1)), "c")>>, All, ov, <<1, 2>>, NoLim), sid |-> "O"] :
                        ov \in { <<O(2, FALSE), O(1, FALSE)>>, <<O(2, TRUE), O(1, FALSE)>>, <<O(2, FALSE), O(1, TRUE)>> } }
-C07Cases == C07Plain \cup C07Aggr \cup C07Mixed \cup C07Pt \cup C07BoolKey
+C07Big == { [st |-> Select(<<F(AKey, ""), F(Call1("int", AVal), "n")>>, ABin("!=", AKey, AStr(<<122>>)), ov, <<>>, NoLim), sid |-> "B"] : ov \in { <<O(2, FALSE)>>, <<O(2, TRUE)>>, <<O(2, TRUE), O(1, FALSE)>> } }
+C07Cases == C07Plain \cup C07Aggr \cup C07Mixed \cup C07Pt \cup C07BoolKey \cup C07Big
 
 -----------------------------------------------------------------------------
 (* c09: GROUP BY and aggregates *)
@@ -307,7 +323,10 @@ C09Raw == { [st |-> Select(<<F(ACall("substr", <<AKey, AInt(0), AInt(1)>>), "p")
               f \in { F(Call1("sum", AVal), "s"), F(Call1("avg", AVal), "av") }, w \in { All, ABin("^=", AKey, AStr(bb)), ABin("^=", AKey, AStr(dd)) } }
 \* integer and fractional texts in one group, in both orders, negative ones too
 StoreX == << SP(<<97, 49>>, Dig(2)), SP(<<97, 50>>, <<50, 46, 53>>), SP(<<98, 49>>, Dig(3)), SP(<<98, 50>>, <<50, 46, 53>>), SP(<<99, 49>>, <<45, 50>>), SP(<<99, 50>>, <<45, 50, 46, 53>>),
-             SP(<<100, 49>>, <<50, 46, 53>>), SP(<<100, 50>>, Dig(3)), SP(<<101, 49>>, <<45, 50, 46, 53>>), SP(<<101, 50>>, <<45, 50>>), SP(<<102, 49>>, Dig(7)) >>
+             SP(<<100, 49>>, <<50, 46, 53>>), SP(<<100, 50>>, Dig(3)), SP(<<101, 49>>, <<45, 50, 46, 53>>), SP(<<101, 50>>, <<45, 50>>), SP(<<102, 49>>, Dig(7)),
+             SP(<<103, 49>>, Dig(5)), SP(<<103, 50>>, Dig(3)), SP(<<103, 51>>, <<52, 46, 53>>),                                           \* 5, 3, 4.5
+             SP(<<104, 49>>, Dig(9)), SP(<<104, 50>>, Dig(7)), SP(<<104, 51>>, Dig(2)), SP(<<104, 52>>, <<56, 46, 50, 53>>), SP(<<104, 53>>, Dig(6)),   \* 9, 7, 2, 8.25, 6
+             SP(<<105, 49>>, <<49, 46, 53>>), SP(<<105, 50>>, Dig(4)), SP(<<105, 51>>, <<51, 46, 50, 53>>), SP(<<105, 52>>, Dig(1)) >>          \* 1.5, 4, 3.25, 1
 C09MixedText == { [st |-> Select(<<F(ACall("substr", <<AKey, AInt(0), AInt(1)>>), "p"), f>>, All, <<>>, <<1>>, NoLim), sid |-> "X"] :
               f \in { F(Call1("sum", AVal), "s"), F(Call1("avg", AVal), "av"), F(Call1("min", AVal), "m"), F(Call1("max", AVal), "x"), F(ABin("-", Call1("max", AVal), Call1("min", AVal)), "r") } }
 \* quantile: approximate by definition (the contract leaves its value open), but total for every percent
@@ -349,7 +368,15 @@ C05Stmts == {
   Select(<<F(AKey, ""), NV>>, ABin("&", ABin(">", AKey, AStr(a)), ABin("!=", AName("n"), AInt(3))), <<>>, <<>>, NoLim),
   Select(<<F(AKey, ""), NV, UV>>, ABin("&", ABin(">", AName("n"), AInt(0)), ABin("!=", AName("u"), AStr(<<55>>))), <<>>, <<>>, Lim(1, 4))
 }
-C05Cases == { [st |-> st, sid |-> sid] : st \in C05Stmts, sid \in {"I", "S7", "S40", "E"} } \cup C05Pt
+KA == AName("k")
+C05Multi == {
+  Select(<<F(AKey, "k"), F(AVal, "v")>>, ABin("&", ABin("&", ABin(">", KA, AStr(a)), ABin("<", KA, AStr(c2))), ABin("!=", Call1("upper", KA), AStr(<<65, 66>>))), <<>>, <<>>, NoLim),
+  Select(<<F(AKey, "k"), F(AVal, "v")>>, ABin("&", ABin("&", ABin(">", KA, AStr(a)), ABin("<", KA, AStr(c2))), ABin("!=", KA, AStr(abc))), <<>>, <<>>, NoLim),
+  Select(<<F(AKey, "k"), NV>>, ABin("&", ABin("&", ABin(">", AName("n"), AInt(0)), ABin("<", ABin("+", AName("n"), AInt(1)), AInt(9))), ABin("!=", ABin("*", AName("n"), AInt(2)), AInt(4))), <<>>, <<>>, NoLim),
+  Select(<<F(AKey, "k"), F(ABin("+", KA, AStr(<<33>>)), "e")>>, ABin("&", ABin("&", ABin("!=", AName("e"), AStr(<<97, 33>>)), ABin("^=", ABin("+", AName("e"), KA), AStr(a))), ABin("!=", Call1("upper", AName("e")), AStr(<<65, 66, 33>>))), <<>>, <<>>, NoLim),
+  Select(<<F(AKey, "k"), NV, F(Call1("sum", Call1("strlen", KA)), "s")>>, ABin("!=", KA, AStr(ab)), <<>>, <<2>>, NoLim),
+  Select(<<F(AVal, "v"), F(Call1("sum", Call1("strlen", AName("v"))), "s"), F(Call1("count", AInt(1)), "c")>>, ABin("^=", AName("v"), AStr(<<>>)), <<>>, <<1>>, NoLim) }
+C05Cases == { [st |-> st, sid |-> sid] : st \in C05Stmts \cup C05Multi, sid \in {"I", "S7", "S40", "E"} } \cup C05Pt
 
 -----------------------------------------------------------------------------
 (* c05k: the cases of the KvCache design model as real statements.  Rows k1..kn with value i; the key condition K
